@@ -28,6 +28,10 @@ record("Formula", module="isla.language", file="isla/language.py",
            "ForallIntFormula": dict(tags=[6], ctor=["bound_variable", "inner_formula"]),
            "ExistsIntFormula": dict(tags=[7], ctor=["bound_variable", "inner_formula"]),
            "PropositionalCombinator": dict(tags=[1, 2, 3]),
+           "StructuralPredicateFormula": dict(tags=[8]),
+           "SemanticPredicateFormula": dict(tags=[9]),
+           "QuantifiedFormula": dict(tags=[4, 5]),
+           "NumericQuantifiedFormula": dict(tags=[6, 7]),
        })
 
 spec("sem", "f, s",
@@ -98,3 +102,50 @@ contract(L + "Formula.__neg__@body", props=["C09"], types={"self": F}, returns=F
              "lambda a, b: a & b": dict(invariant="forall_sort(s1, 'Asg', sem(a, s1) == forall(i, 0, _k, sem(_xs[i], s1)))")}},
          crosscheck=False,
          note="SMTFormula overrides __neg__ (z3.Not), hence kind != SMT here")
+
+
+# ---- negation normal form (C09) -----------------------------------------------------------------------
+# convert_to_nnf dispatches through a flow/lash chain over seven case functions (library combinators:
+# the call shape of the chain is a separate syntactic obligation).  Dispatch view (ASSUMED, the induction
+# hypothesis of the recursion): the result of the first case function that does not answer Nothing.  Each
+# case function is VERIFIED: it answers exactly for its formula classes, and its answer means
+# `formula` if not negate else `not formula` -- under every assignment.
+NNF_MEANS = "forall_sort(s, 'Asg', sem(result, s) == (sem(formula, s) != negate))"
+contract(L + "convert_to_nnf", props=["C09"], types={"formula": F, "negate": "Bool"}, returns=F,
+         ensures=NNF_MEANS, assumed=True,
+         path_hints={"defaults": {"negate": "False"}},
+         why_assumed="dispatch view of the flow/lash chain: the answer of the first case function that does not "
+                     "return Nothing; the seven case functions are verified below with this contract as induction "
+                     "hypothesis (decreasing formula size), lemma nnf_cases_cover shows that some case always answers; "
+                     "the SMT case (z3_push_in_negations) is checked by bounded_C09")
+FOLDS = {"lambda a, b: a | b": dict(invariant="forall_sort(s1, 'Asg', sem(a, s1) == exists(i, 0, _k, sem(_xs[i], s1)))"),
+         "lambda a, b: a & b": dict(invariant="forall_sort(s1, 'Asg', sem(a, s1) == forall(i, 0, _k, sem(_xs[i], s1)))")}
+
+
+def nnf_case(name, kinds, extra_hints=None):
+    applies = " or ".join(f"formula.kind == {k}" for k in kinds)
+    hints = {"recursion_via": L + "convert_to_nnf", "folds": FOLDS}
+    hints.update(extra_hints or {})
+    contract(L + name, props=["C09"], types={"formula": F, "negate": "Bool"}, returns=f"Opt[{F}]",
+             ensures={"answers_exactly_its_classes": f"(result is not None) == ({applies})",
+                      "meaning": f"implies(result is not None, {NNF_MEANS})"},
+             decreases="uf_int('fsize', formula)", path_hints=hints, crosscheck=False)
+
+
+nnf_case("convert_negated_formula_to_nnf", [K["NEG"]])
+nnf_case("convert_conjunctive_formula_to_nnf", [K["CONJ"]])
+nnf_case("convert_disjunctive_formula_to_nnf", [K["DISJ"]])
+nnf_case("convert_structural_predicate_formula_to_nnf", [8, 9])
+nnf_case("convert_exists_int_formula_to_nnf", [K["FORALLINT"], K["EXISTSINT"]])
+nnf_case("convert_quantified_formula_to_nnf", [K["FORALL"], K["EXISTS"]],
+         {"calls": {"set()": "uf_sort('empty_set', 'Any')"}})
+
+NONE7 = {f"r{i}": f"Opt[{F}]" for i in range(1, 7)}
+lemma("nnf_cases_cover", props=["C09"], types=dict(NONE7, formula=F, negate="Bool"),
+      hyps="formula.kind >= 1 and formula.kind <= 9 and " + " and ".join(
+          f"post('{n}', formula=formula, negate=negate, result=r{i})" for i, n in enumerate(
+              ["convert_negated_formula_to_nnf", "convert_conjunctive_formula_to_nnf",
+               "convert_disjunctive_formula_to_nnf", "convert_structural_predicate_formula_to_nnf",
+               "convert_exists_int_formula_to_nnf", "convert_quantified_formula_to_nnf"], 1)),
+      goal=" or ".join(f"r{i} is not None" for i in range(1, 7)),
+      note="every formula class other than SMTFormula (kind 0, whose case is z3-level) is answered by a verified case")
